@@ -152,7 +152,7 @@ impl Prop for C15 {
         let expected = battery();
         let progs = Programs::new(level(tier));
         for i in a..b {
-            out.idx = Some(i);
+            out.at(i);
             // the quick tier leaves out two leaf styles that only vary which branch a condition
             // selects / repeat one leaf (they matter for evaluation order, C07, not for containment)
             if tier == Tier::Quick && matches!(progs.style_of(i), Some("mixed-false") | Some("repeat")) {
